@@ -56,12 +56,13 @@ type recWriter struct {
 	hdr  http.Header
 	log  []recEv
 	next *scripted // answer of the next Write; nil = accept everything
+	sent string    // Content-Type at the first WriteHeader ("-" = no WriteHeader yet)
 }
 
 var errScripted = errors.New("scripted write failure")
 
 func newRecWriter(ct *string) *recWriter {
-	w := &recWriter{hdr: http.Header{}}
+	w := &recWriter{hdr: http.Header{}, sent: "-"}
 	if ct != nil {
 		w.hdr["Content-Type"] = []string{*ct}
 	}
@@ -70,7 +71,12 @@ func newRecWriter(ct *string) *recWriter {
 
 func (w *recWriter) Header() http.Header { return w.hdr }
 
-func (w *recWriter) WriteHeader(code int) { w.log = append(w.log, recEv{kind: 'h', code: code}) }
+func (w *recWriter) WriteHeader(code int) {
+	if w.sent == "-" {
+		w.sent = w.ctString()
+	}
+	w.log = append(w.log, recEv{kind: 'h', code: code})
+}
 
 func (w *recWriter) Write(b []byte) (int, error) {
 	n, fail := len(b), false
@@ -513,8 +519,8 @@ func (writerEngine) Run(ops []string) (ans []string, oracle []string) {
 		if run.ctx == nil {
 			oracle = append(oracle, "C08 harness: the first handler of the chain never ran")
 		} else if seg.endIdx >= 0 {
-			ans[seg.endIdx] = fmt.Sprintf("%s %s len=%d ;; st=%d ct=%s", b2s(escaped), run.rec.logString(),
-				run.ctx.Length(), run.ctx.StatusCode(), run.rec.ctString())
+			ans[seg.endIdx] = fmt.Sprintf("%s %s len=%d ;; st=%d ct=%s sent=%s", b2s(escaped), run.rec.logString(),
+				run.ctx.Length(), run.ctx.StatusCode(), run.rec.ctString(), run.rec.sent)
 			oracle = append(oracle, writerOracle(run, escaped)...)
 		}
 		seg = &wSeg{endIdx: -1}
